@@ -1,10 +1,14 @@
 """C08 — combinators mean what their definitions say, for every shape and axis.
 
-Tie: Chain/Invert are REGENERATED (Gen/Combinators.lean); Concatenate, Stack, Partial, Reshape,
-EmbedCondition (and Scan/Vmap through their defining equivalences Scan = Chain of the unstacked layers,
-Vmap = Stack along axis 0 of the per-slice bijections) are hand models over an n-d array model
-(Model/Arr.lean) and are run here against the real objects on random expression trees, ranks 0-3,
-every valid axis incl. negative, every index kind of Partial, conditional/unconditional children mixed.
+Tie: Chain/Invert are REGENERATED (Gen/Combinators.lean), and so are the four methods and the constructors of
+Concatenate, Stack, Partial, Reshape, EmbedCondition (Gen/ArrCombinators.lean, whose bodies call the primitive specs
+of Model/ArrJnp.lean; Props/C08 section 10 proves generated = hand model).  Both the GENERATED definitions (driver op
+`atree`) and the hand model over n-d arrays (Model/Arr.lean, op `atreeh`; Scan/Vmap enter through their defining
+equivalences Scan = Chain of the unstacked layers, Vmap = Stack along axis 0 of the per-slice bijections) are run
+here against the real objects on random expression trees, ranks 0-3, every valid axis incl. negative, every index
+kind of Partial, conditional/unconditional children mixed; the generated constructors' declared shape / cond_shape
+are compared with the real objects'.  The primitive specs themselves (array_split, split, squeeze, concatenate,
+stack, accumulate, range(n)[i]) are compared with jnp / Python directly (op `jnpprim`).
 The witness search is the property's own oracle: a reference interpreter of the combinators'
 definitions over the children's real methods (NumPy split/concatenate/stack).
 """
@@ -25,7 +29,7 @@ from vlib import f2b, fs2b, b2f, b2fs, ints
 from props import c01
 
 ID = "C08"
-GEN = ["Combinators", "Leaves", "Misc", "Dist"]
+GEN = ["Combinators", "ArrCombinators", "Leaves", "Misc", "Dist"]
 RULE = ("random expression trees of array bijections (elementwise leaves with per-element non-default parameters, Chain, Invert, "
         "Concatenate and Stack along every valid axis incl. negative, Partial with int/slice/int-array/bool-array/tuple indices, Reshape, "
         "EmbedCondition, Scan, Vmap with mapped or broadcast parameters and mapped/broadcast condition), ranks 0-3, conditional and "
@@ -33,6 +37,8 @@ RULE = ("random expression trees of array bijections (elementwise leaves with pe
         "distinct = distinct (tree, method, input)")
 TRUSTED = c01.TRUSTED + [
     "Model/Arr.lean: three-level (O,A,I) view of row-major data for axis operations, gather/scatter for Partial (hand model, validated here against jnp)",
+    "Model/ArrJnp.lean: specs of jnp.array_split / split / squeeze / concatenate / stack / reshape / x[idxs] / .at[idxs].set, zip(strict=True), zip(*), sum, accumulate, range(n)[i] that the generated bodies call (total; guards stated in the theorems; validated here against jnp directly and through the trees)",
+    "tools/py2lean/targets_arrcomb.py: typing sheet of the generated array combinators (field types; statement-level argument-check calls recorded as guards)",
     "Partial's idxs are resolved to flat positions with NumPy indexing in the harness (in-range indices)",
     "Scan and Vmap enter the model through their defining equivalences (Chain of unstacked layers / Stack along axis 0 of per-slice bijections); lax.scan and filter_vmap themselves are JAX's",
 ]
@@ -112,7 +118,9 @@ def rand_atree(rng, shape, depth, allow_cond=True):
     shape = tuple(shape)
     rank = len(shape)
     opts = ["EW"]
-    if depth > 0:
+    if 0 in shape:  # zero-sized child of a Concatenate: leaves, chains and inversions only
+        opts += ["CH", "INV"] if depth > 0 else []
+    elif depth > 0:
         opts += ["CH", "CH", "INV", "RSH"]
         if rank >= 1:
             opts += ["CAT", "CAT", "STK", "STK", "PAR", "PAR", "SCAN", "VMAP"]
@@ -145,7 +153,11 @@ def rand_atree(rng, shape, depth, allow_cond=True):
         ax = axis % rank
         total = shape[ax]
         k = rng.randrange(1, min(total, 3) + 1)
-        cuts = sorted(rng.sample(range(1, total), k - 1)) if k > 1 else []
+        if k > 1 and rng.random() < 0.25:
+            k = rng.choice([2, 3])
+            cuts = sorted(rng.choice(range(0, total + 1)) for _ in range(k - 1))  # zero-sized children allowed (repeated / end cut points)
+        else:
+            cuts = sorted(rng.sample(range(1, total), k - 1)) if k > 1 else []
         sizes = [b - a for a, b in zip([0] + cuts, cuts + [total])]
         ch = [rand_atree(rng, shape[:ax] + (s,) + shape[ax + 1:], depth - 1, allow_cond) for s in sizes]
         obj = B.Concatenate([c.obj for c in ch], axis=axis)
@@ -212,6 +224,95 @@ def parse_out(got):
     return shape, data + ld
 
 
+def parse_out_gen(got):
+    """`<shape> <data> <ld|-> <declared shape> <declared cond>`"""
+    toks = got.split(" ")
+    shape = [] if toks[0] == "-" else [int(t) for t in toks[0].split(",")]
+    data = b2fs(toks[1])
+    ld = [] if toks[2] == "-" else [b2f(toks[2])]
+    decl = [] if toks[3] == "-" else [int(t) for t in toks[3].split(",")]
+    return shape, data + ld, decl, toks[4] == "1"
+
+
+def _arrs(txt):
+    out = []
+    for part in txt.split(" ; "):
+        sh, d = part.split(" ")
+        out.append(([] if sh == "-" else [int(t) for t in sh.split(",")], b2fs(d)))
+    return out
+
+
+def prim_correspondence(c, tier, rng):
+    """the primitive specs of Model/ArrJnp.lean against jnp / Python, on their own (integer-valued data, exact)"""
+    lines, wants, infos = [], [], []
+    shapes = [(1,), (2,), (3,), (4,), (5,), (2, 3), (3, 2), (1, 4), (4, 1), (2, 2, 3), (3, 1, 2), (2, 0), (0, 3)]
+    n = 60 if tier == "quick" else 400
+
+    def arr(shape):
+        return np.arange(1, size(shape) + 1, dtype=float).reshape(shape) * rng.choice([1, -1, 3])
+
+    def enc(a):
+        return f"{ints(a.shape)} {fs2b(np.asarray(a, dtype=float).ravel().tolist())}"
+
+    def add(line, fn, **info):
+        try:
+            want = fn()
+        except Exception as ex:
+            want = "EXC:" + type(ex).__name__
+        lines.append(line); wants.append(want); infos.append(info)
+
+    for _ in range(n):
+        shape = rng.choice(shapes)
+        rank = len(shape)
+        axis = rng.randrange(-rank, rank)
+        A = shape[axis]
+        x = arr(shape)
+        # array_split with sorted cut points (incl. repeated, 0, A and beyond A: clipped)
+        k = rng.choice([0, 1, 2, 3])
+        idxs = sorted(rng.randrange(0, A + 2) for _ in range(k))
+        add(f"jnpprim asplit {enc(x)} {ints(idxs)} {axis}", lambda: [(list(p.shape), np.asarray(p).ravel().tolist()) for p in jnp.array_split(jnp.asarray(x), tuple(idxs), axis=axis)],
+            prim="array_split", shape=shape, axis=axis, idxs=idxs)
+        divs = [d for d in range(1, A + 1) if A % d == 0] or [1]
+        nsec = rng.choice(divs)
+        add(f"jnpprim split {enc(x)} {nsec} {axis}", lambda: [(list(p.shape), np.asarray(p).ravel().tolist()) for p in jnp.split(jnp.asarray(x), nsec, axis=axis)],
+            prim="split", shape=shape, axis=axis, n=nsec)
+        if A == 1:
+            add(f"jnpprim squeeze {enc(x)} {axis}", lambda: [(list(jnp.asarray(x).squeeze(axis=axis).shape), np.asarray(x).ravel().tolist())], prim="squeeze", shape=shape, axis=axis)
+        # concatenate parts that differ along the axis only
+        kk = rng.choice([1, 2, 3])
+        parts = [arr(shape[:axis % rank] + (rng.choice([0, 1, 2, 3]),) + shape[axis % rank + 1:]) + 100 * j for j in range(kk)]
+        add(f"jnpprim concat {axis} {kk} " + " ".join(enc(p) for p in parts),
+            lambda: (lambda r: [(list(r.shape), np.asarray(r).ravel().tolist())])(jnp.concatenate([jnp.asarray(p) for p in parts], axis)),
+            prim="concatenate", shapes=[p.shape for p in parts], axis=axis)
+        saxis = rng.randrange(-(rank + 1), rank + 1)
+        sparts = [arr(shape) + 100 * j for j in range(kk)]
+        add(f"jnpprim stack {saxis} {kk} " + " ".join(enc(p) for p in sparts),
+            lambda: (lambda r: [(list(r.shape), np.asarray(r).ravel().tolist())])(jnp.stack([jnp.asarray(p) for p in sparts], saxis)),
+            prim="stack", shape=shape, axis=saxis, k=kk)
+        l = [rng.randrange(0, 4) for _ in range(rng.choice([0, 1, 2, 4]))]
+        from itertools import accumulate as _acc
+        add(f"jnpprim accumulate {ints(l)}", lambda: list(_acc(l)), prim="accumulate", l=l)
+        nn, ii = rng.randrange(0, 4), rng.randrange(-5, 5)
+        add(f"jnpprim range {nn} {ii}", lambda: range(nn)[ii], prim="range", n=nn, i=ii)
+    outs = vlib.run_model(lines)
+    for line, got, want, info in zip(lines, outs, wants, infos):
+        c.case(line, True)
+        c.count("prim:" + info["prim"])
+        if isinstance(want, str):  # the real primitive raised: the spec's guard must have rejected too
+            ok = got.startswith("ERR")
+        elif got.startswith("ERR"):
+            ok = False
+        elif info["prim"] == "accumulate":
+            ok = ([] if got == "-" else [int(t) for t in got.split(",")]) == want
+        elif info["prim"] == "range":
+            ok = int(got) == want
+        else:
+            g = _arrs(got)
+            ok = len(g) == len(want) and all(gs == ws and gd == wd for (gs, gd), (ws, wd) in zip(g, want))
+        if not ok:
+            c.mismatch("jnp-primitive-spec-vs-jnp", op=line[:300], model=got[:300], impl=want, **info)
+
+
 def corr(c, tier, rng, n_trees=None):
     own = n_trees is None
     n_trees = n_trees if n_trees is not None else (70 if tier == "quick" else 600)
@@ -236,10 +337,12 @@ def corr(c, tier, rng, n_trees=None):
                     want = fj.call(node.obj, m, np.reshape(xs, shape), cj)
                 except Exception as ex:
                     want = ["EXC:" + type(ex).__name__ + ":" + str(ex)[:80]]
-                line = f"atree {m} {f2b(cond)} {ints(shape)} {fs2b(xs)} " + " ".join(node.tokens)
-                lines.append(line); wants.append(want)
-                infos.append(dict(kind=node.kind, shape=shape, method=m, x=xs, cond=cond if node.cond else None, tree=" ".join(node.tokens)[:300]))
-                c.case((" ".join(node.tokens), m, tuple(xs)), node.nontrivial, sample={"op": line[:240], "impl": want} if ti < 2 and m == "tl" and rep == 0 else None)
+                for op in ("atree", "atreeh"):  # generated definitions, hand model: both against the real object
+                    line = f"{op} {m} {f2b(cond)} {ints(shape)} {fs2b(xs)} " + " ".join(node.tokens)
+                    lines.append(line); wants.append(want)
+                    infos.append(dict(kind=node.kind, shape=shape, method=m, x=xs, cond=cond if node.cond else None, tree=" ".join(node.tokens)[:300],
+                                      declared=(list(node.obj.shape), node.obj.cond_shape is not None)))
+                    c.case((op, " ".join(node.tokens), m, tuple(xs)), node.nontrivial, sample={"op": line[:240], "impl": want} if ti < 2 and m == "tl" and rep == 0 else None)
         c.count("root:" + node.kind)
         c.count(f"rank{len(shape)}")
         # slicing / indexing / len of a Chain never change the function: chain[i:j] is the chain of the sub-list
@@ -260,10 +363,12 @@ def corr(c, tier, rng, n_trees=None):
                         want = fj.call(sl, m, np.reshape(xs, shape), jnp.asarray(cond) if sub_cond else None)
                     except Exception as ex:
                         want = ["EXC:" + type(ex).__name__ + ":" + str(ex)[:80]]
-                    line = f"atree {m} {f2b(cond)} {ints(shape)} {fs2b(xs)} " + " ".join(toks)
-                    lines.append(line); wants.append(want)
-                    infos.append(dict(kind="CH-slice", shape=shape, method=m, x=xs, cond=cond if sub_cond else None, tree=" ".join(toks)[:300]))
-                    c.case((" ".join(toks), "slice", m, tuple(xs)), True)
+                    for op in ("atree", "atreeh"):
+                        line = f"{op} {m} {f2b(cond)} {ints(shape)} {fs2b(xs)} " + " ".join(toks)
+                        lines.append(line); wants.append(want)
+                        infos.append(dict(kind="CH-slice", shape=shape, method=m, x=xs, cond=cond if sub_cond else None, tree=" ".join(toks)[:300],
+                                          declared=(list(sl.shape), sl.cond_shape is not None)))
+                        c.case((op, " ".join(toks), "slice", m, tuple(xs)), True)
                 c.count("chain-slice")
             except Exception as ex:
                 c.mismatch("chain-slice-declared-shapes", tree=" ".join(node.tokens)[:200], slice=(i, j), exc=repr(ex)[:200])
@@ -272,14 +377,22 @@ def corr(c, tier, rng, n_trees=None):
         c01.scan_correspondence(c, tier, rng)
         # merge_transforms on nested Transformed (1-3 levels): the generated model of the nest vs the real merged object
         c03.corr_nested(c, tier, rng, n=20 if tier == "quick" else 120)
+        prim_correspondence(c, tier, rng)
     outs = vlib.run_model(lines)
     for line, got, want, info in zip(lines, outs, wants, infos):
+        gen = line.startswith("atree ")
+        name = "generated-array-combinators-vs-impl" if gen else "array-combinators-vs-impl"
         if got.startswith("ERR") or any(isinstance(w, str) for w in want):
-            c.mismatch("array-combinators-vs-impl", op=line[:400], model=got[:200], impl=want, **info)
+            c.mismatch(name, op=line[:400], model=got[:200], impl=want, **info)
             continue
-        shape, vals = parse_out(got)
+        if gen:
+            shape, vals, decl, dcond = parse_out_gen(got)
+            if (decl, dcond) != info["declared"]:
+                c.mismatch("generated-constructor-declared-shape-vs-impl", op=line[:400], model=(decl, dcond), impl=info["declared"], tree=info["tree"])
+        else:
+            shape, vals = parse_out(got)
         if tuple(shape) != tuple(info["shape"]) or not vlib.allclose(vals, want, **TOL):
-            c.mismatch("array-combinators-vs-impl", op=line[:400], model=vals, model_shape=shape, impl=want, **info)
+            c.mismatch(name, op=line[:400], model=vals, model_shape=shape, impl=want, **info)
 
 
 # ------------------------------------------------------------------ reference interpreter (the property's own oracle)
